@@ -1017,20 +1017,32 @@ def run(ctx):
     used = set()
     per_rule = {}
     by_key = {}
+    present = {s.key() for s, _, _ in cl}
+    # rows whose own site is gone: the code may have moved to another function (helper extracted / folded, closure made
+    # a named fn); such a row can vouch for an identical construct (same kind, same operand provenance, same guards)
+    free_rows = {}
+    for k, row in table.items():
+        if k not in present:
+            free_rows.setdefault((row["kind"], re.sub(r"%\d+", "%", row["shape"])), []).append(row)
     for s, rule, why_ in cl:
         key = s.key()
-        if rule is None and key in table:
-            need = table[key].get("guards") or []
+        row = table.get(key)
+        moved = False
+        if rule is None and row is None and free_rows.get((s.kind, re.sub(r"%\d+", "%", s.shape))):
+            row = free_rows[(s.kind, re.sub(r"%\d+", "%", s.shape))][0]
+            moved = True
+        if rule is None and row is not None:
+            need = row.get("guards") or []
             have = site_guards(f, s) if need else []
             miss = guards_missing(need, have)
-            for rg in table[key].get("remote") or []:
+            for rg in row.get("remote") or []:
                 okr, whyr = remote_guard_holds(f, rg["fn"], rg["guard"])
                 if not okr:
                     miss.append("%s: %s" % (short(rg["fn"]), whyr))
             if miss:
                 why_ = "tabled, but the guard(s) its reason relies on no longer hold: %s" % miss
             else:
-                rule, why_ = "P2-table", table[key]["reason"]
+                rule, why_ = "P2-table", row["reason"] + (" [row of %s: the construct moved]" % short(row["fn"]) if moved else "")
                 used.add(key)
         per_rule[rule or "unresolved"] = per_rule.get(rule or "unresolved", 0) + 1
         by_key.setdefault(key, []).append((s, rule, why_))
@@ -1269,20 +1281,30 @@ def check_reachable_sites(ctx, f, entries, what, floor_entries, floor_sites):
     ctx.floor("R-PANIC", "entry points: %s" % what, len(entries), floor_entries)
     ctx.floor("R-PANIC", "panic-capable sites reachable from them", len(sites), floor_sites)
     by_key = {}
+    all_present = {s_.key() for s_, _, _ in cl}
+    free_rows = {}
+    for k, row in table.items():
+        if k not in all_present:
+            free_rows.setdefault((row["kind"], re.sub(r"%\d+", "%", row["shape"])), []).append(row)
     for s, rule, why_ in cl:
         key = s.key()
-        if rule is None and key in table:
-            need = table[key].get("guards") or []
+        row = table.get(key)
+        moved = False
+        if rule is None and row is None and free_rows.get((s.kind, re.sub(r"%\d+", "%", s.shape))):
+            row = free_rows[(s.kind, re.sub(r"%\d+", "%", s.shape))][0]
+            moved = True
+        if rule is None and row is not None:
+            need = row.get("guards") or []
             have = site_guards(f, s) if need else []
             miss = guards_missing(need, have)
-            for rg in table[key].get("remote") or []:
+            for rg in row.get("remote") or []:
                 okr, whyr = remote_guard_holds(f, rg["fn"], rg["guard"])
                 if not okr:
                     miss.append("%s: %s" % (short(rg["fn"]), whyr))
             if miss:
                 why_ = "tabled, but the guard(s) its reason relies on no longer hold: %s" % miss
             else:
-                rule, why_ = "P2-table", table[key]["reason"]
+                rule, why_ = "P2-table", row["reason"] + (" [row of %s: the construct moved]" % short(row["fn"]) if moved else "")
         by_key.setdefault(key, []).append((s, rule, why_))
     for key, lst in by_key.items():
         bad = [x for x in lst if x[1] is None]
